@@ -2374,6 +2374,9 @@ class Side:
         """
         for p in self.planes:
             p += diff
+        if self.strata_points is not None:
+            for p in self.strata_points:
+                p += diff
 
         u_axis = Vec(self.uaxis.x, self.uaxis.y, self.uaxis.z)
         v_axis = Vec(self.vaxis.x, self.vaxis.y, self.vaxis.z)
@@ -2390,6 +2393,9 @@ class Side:
         orient = to_matrix(angles)  # Only do this once.
         for p in self.planes:
             p.localise(origin, orient)
+        if self.strata_points is not None:
+            for p in self.strata_points:
+                p.localise(origin, orient)
 
         self.uaxis = self.uaxis.localise(origin, orient)
         self.vaxis = self.vaxis.localise(origin, orient)
